@@ -438,6 +438,8 @@ FOCUS_CALLS = [c for c in CALLS if c[0] in ('scalar', 'mapping', 'sequence')
 
 
 def shard(ctx):
+    from vlib import repotests
+    repotests.run(ctx, 'C16', ['recognize-pure', 'require-pure'])
     env = get_env()
     k = 0
     for text in HAND_DOCS:
